@@ -22,16 +22,16 @@ add("C01", "model-based testing: generated data-unit histories vs a from-scratch
     "Trusts the harness' stream model (oracles/stream_model.py, hand-translated level patterns) and a permissive level-constraint column "
     "appended in-process; unit blobs come from the encoder of the tree under test (C03 judges them).")
 add("C02", "structure-aware mutation fuzzing (byte-, bit-field-, field- and unit-level) + coverage-guided fuzzing (atheris) with exception bucketing",
-    "Exploration: ~30k (quick) / ~110k generated + ~190k coverage-guided (thorough) byte strings derived from 25 valid streams by stacked byte mutations, field-aware bit "
+    "Exploration: ~30k (quick) / ~380k generated + ~640k coverage-guided (thorough) byte strings derived from 25 valid streams by stacked byte mutations, field-aware bit "
     "splices, description-level field/unit mutations and random data are run through init_io+parse_stream; outcome must be accept, "
     "ConformanceError (whose explain/str/offending_offset/viewer-hint must work) or out-of-scope; crashes are bucketed by root cause.",
     "Size guard (per-field bounds) excludes streams declaring huge pictures. Thorough tier adds 16 coverage-guided libFuzzer jobs (atheris, oracle inside the target, exceptions bucketed) from empty and valid-stream corpora; quick tier is generator-only.")
 add("C03", "generated configurations: encode -> serialise -> validate round trip with format oracle",
-    "Exploration: ~2.6k (quick) / ~36k (thorough) valid configurations constructed by Hypothesis x 1-3 pictures x numbering choice; the "
+    "Exploration: ~2.6k (quick) / ~28k (thorough) valid configurations constructed by Hypothesis x 1-3 pictures x numbering choice; the "
     "validator must accept and return the configured 20 video parameters, coding mode, picture count, order and numbers.",
     "Valid-by-construction configurations only (DESIGN 7.1); lossy budgets with no representable qindex are out of domain (harness size model).")
 add("C04", "generated configurations: encode -> decode exactness oracle (round trip)",
-    "Exploration: lossless and big-budget lossy configurations (~2.4k quick / ~27k thorough) with extreme/noise/constant pictures; decoded "
+    "Exploration: lossless and big-budget lossy configurations (~2.4k quick / ~20k thorough) with extreme/noise/constant pictures; decoded "
     "samples must equal the input whenever every slice has qindex 0.",
     "qindex values are read from the encoder's own description.")
 add("C05", "generated configurations: run all decoder test-case generators; conformance + metamorphic content relations",
@@ -40,19 +40,19 @@ add("C05", "generated configurations: run all decoder test-case generators; conf
     "re-encoded-header cases equal to the plain encoding of the same source.",
     "16x16 substitute natural pictures; signal_range only for cheap wavelet/depth classes; D7 is a listed known finding.")
 add("C06", "round-trip oracle (deserialise -> serialise -> deserialise) over mutated streams + coverage-guided fuzzing (atheris) in thorough",
-    "Exploration: ~13k (quick) / ~58k generated + ~190k coverage-guided (thorough) mutated/valid/random byte strings; every one the Deserialiser parses to completion must "
+    "Exploration: ~13k (quick) / ~128k generated + ~480k coverage-guided (thorough) mutated/valid/random byte strings; every one the Deserialiser parses to completion must "
     "re-serialise to identical bytes and re-deserialise to an equal description.",
     "Only completed parses are judged; size guard on the (de)serialiser's slice loops.")
 add("C07", "generated descriptions with explicit/AUTO/omitted fields vs an autofill reference model",
-    "Exploration: ~8k (quick) / ~320k (thorough) stream descriptions; output bytes are deserialised and every explicit value, default, AUTO "
+    "Exploration: ~8k (quick) / ~256k (thorough) stream descriptions; output bytes are deserialised and every explicit value, default, AUTO "
     "offset, AUTO picture number, AUTO major_version (harness' own version table) and extended-transform-parameter removal is compared with the model.",
     "Output positions come from the repository's Deserialiser; defaults from vc2_default_values.")
 add("C08", "differential: validator's decoded transform data vs harness model fed by the Deserialiser's description",
-    "Exploration: ~1.9k (quick) / ~28k (thorough) conformant streams incl. re-packed extreme/dangling payloads; header values, parameters, "
+    "Exploration: ~1.9k (quick) / ~17k (thorough) conformant streams incl. re-packed extreme/dangling payloads; header values, parameters, "
     "matrices and every dequantised, DC-predicted coefficient must agree between the two parsers.",
     "Validator state captured by rebinding decoder.stream.picture_decode in-process; harness has its own geometry/dequantiser.")
 add("C09", "generated accepted streams with extreme payloads; validity predicate on every output picture",
-    "Exploration: ~1.9k (quick) / ~41k (thorough) accepted streams weighted to extreme coefficients/qindex; every output picture must have "
+    "Exploration: ~1.9k (quick) / ~24k (thorough) accepted streams weighted to extreme coefficients/qindex; every output picture must have "
     "the exact dimensions, int samples within depth, coded picture number and there must be one picture per (completed) picture.",
     "Dimensions/depths recomputed by the harness from the deserialised header.")
 add("C10", "metamorphic: concatenation of member streams vs members alone",
@@ -72,7 +72,7 @@ add("C13", "exhaustive box enumeration + generated large values against an inter
     "the same-dimensions flag, slice_bytes exhaustive small box + values to 2^200: tiling, subband sizes, flag and byte sums checked against the harness model.",
     "Model in oracles/slice_geometry.py; flag read as 'identical (w,h) in every component and level'.")
 add("C14", "generated lossy configurations vs a reference size model (minimal-qindex and budget oracle)",
-    "Exploration: ~1.8k (quick) / ~17k (thorough) lossy LD/HQ cases with minimum_qindex / scaler overrides; per slice: fits at q, not at q-1, "
+    "Exploration: ~1.8k (quick) / ~29k (thorough) lossy LD/HQ cases with minimum_qindex / scaler overrides; per slice: fits at q, not at q-1, "
     "q >= minimum, coefficients equal harness quantisation, field widths, budgets, measured slice-region sizes, stream validates.",
     "Unquantised coefficients from transform_and_slice_picture; offsets measured with MonitoredDeserialiser.")
 add("C24", "generated schedules of real worker processes (orders, batches, hash seeds) vs serial run; disjoint-write-set invariant",
@@ -80,11 +80,11 @@ add("C24", "generated schedules of real worker processes (orders, batches, hash 
     "worker processes, of two serial runs under different PYTHONHASHSEED and of a one-at-a-time replay must be identical and write sets disjoint.",
     "Order, batching and hash seeds are generated; OS-level interleaving inside a batch is not controlled (disjoint write sets are the argument for arbitrary interleavings).")
 add("C25", "mutated/valid streams through the validator CLI in-process vs direct decoder run",
-    "Exploration: ~3k (quick) / ~26k (thorough) files x output patterns x flags: exit status, located explanation sections, and the written "
+    "Exploration: ~3k (quick) / ~96k (thorough) files x output patterns x flags: exit status, located explanation sections, and the written "
     "raw/json pairs (count, numbering, content via file_format.read) must match a direct parse_stream of the same bytes; never status 3.",
     "Reference verdict is the repository's own parse_stream.")
 add("C26", "mutation fuzzing of the viewer CLI in-process with drawn display options",
-    "Exploration: ~7k (quick) / ~37k (thorough) byte strings x option sets; exit status must be in {0,2,3,4}, never 255 or an escaping exception.",
+    "Exploration: ~7k (quick) / ~96k (thorough) byte strings x option sets; exit status must be in {0,2,3,4}, never 255 or an escaping exception.",
     "Size guard trips on transform_data/fragment_data of the (de)serialiser.")
 
 add("C15", "generated video formats near every base format x all alternative header encodings; validator decode equality",
